@@ -5,6 +5,7 @@ import math
 from hypothesis import strategies as st
 
 from .. import cachesim, env, lin
+from ..core import HarnessError
 from ..hyp import run_given
 from . import c02
 
@@ -67,6 +68,8 @@ def invariants(case, hard, bad):
 
 
 def execute(ctx, case):
+  if case.get('via') == 'processor':
+    return execute_processor(ctx, case)
   b = env.bootstrap()
   mcs, hard_derived, low = cachesim.derived_limits(case['max_cache_size'], case['flow'], case.get('conf_layout', 'plain'))
   # the limit the property states: MAX_CACHE_SIZE, or 105% of it under flow control
@@ -153,7 +156,54 @@ def execute(ctx, case):
   ctx.note(case, nontrivial=bool(refused) and dup_full, classes=classes)
 
 
+def execute_processor(ctx, case):
+  """Through the write processor, as the daemon stores: a tagged series fills the cache to its hard limit, then an
+  already cached timestamp is sent again in another legal spelling of the same series.  It is an update: accepted,
+  no overflow signal, size unchanged."""
+  b = env.bootstrap()
+  env.reset(CACHE_WRITE_STRATEGY=case['strategy'], USE_FLOW_CONTROL=case['flow'])
+  m, hard, low = cachesim.apply_limits(b, case['max_cache_size'], case['flow'])
+  overflow = []
+  b.events.cacheOverflow.handlers.append(lambda: overflow.append(1))
+  proc = env.need(b.cache, 'CacheFeedingProcessor')()
+  cache = b.cache.MetricCache()
+  canon = 'srv.cpu;a=1;b=2'
+  t = 100
+  while not overflow and t < 100 + 4 * case['max_cache_size'] + 8:
+    proc.process(canon, (t, float(t)))
+    t += 1
+  if not overflow:
+    raise HarnessError('cache never filled')
+  full_size = cache.size
+  held = dict(dict.get(cache, canon, {}))
+  del overflow[:]
+  ts = min(held)
+  for spelling in case['spellings']:
+    proc.process(spelling, (ts, 4242.0))
+    now = dict(dict.get(cache, canon, {}))
+    if overflow or cache.size != full_size or now.get(ts) != 4242.0 or len(cache) != 1:
+      ctx.fail('C10:update-refused-when-full', 'cache at its hard limit (%d datapoints, MAX_CACHE_SIZE=%d flow=%s %s): timestamp %r of %r '
+               're-sent as %r -> overflow signals %d, size %d, cached value %r, cached series %r' % (
+                 full_size, case['max_cache_size'], case['flow'], case['strategy'], ts, canon, spelling, len(overflow), cache.size,
+                 now.get(ts), sorted(dict.keys(cache))), case, 'update-accepted')
+      return
+    proc.process(canon, (ts, float(ts)))
+  ctx.note(case, nontrivial=True, classes=['update through the write processor while full'],
+           key=['proc', case['strategy'], case['max_cache_size'], case['flow']])
+
+
+def processor_cases(ctx):
+  for strategy in (('sorted', 'bucketmax') if ctx.quick else cachesim.STRATEGIES):
+    for mcs in (1, 2, 5):
+      for flow in (False, True):
+        yield {'via': 'processor', 'strategy': strategy, 'max_cache_size': mcs, 'flow': flow,
+               'spellings': ['srv.cpu;a=1;b=2', 'srv.cpu;b=2;a=1', 'srv.cpu{b="2",a="1"}', 'srv.cpu{a="1",b="2"}']}
+
+
 def run(ctx):
+  if (ctx.shard or 0) == 0:
+    for case in processor_cases(ctx):
+      execute(ctx, case)
   if (ctx.shard or 0) == 0:
     for mcs, flow in (((1, False), (2, True)) if ctx.quick else ((1, False), (2, True), (3, False))):
       c02.enumerate_single(ctx, execute, extra={'max_cache_size': mcs, 'flow': flow},
